@@ -719,13 +719,11 @@ func (s *Server) handleConnectionLoop(conn net.Conn, procHandler *NFSProcedureHa
 
 	connID := fmt.Sprintf("conn-%d", s.nextConnID.Add(1))
 
-	var connRateLimiter *RateLimiter
-	if s.handler != nil {
-		connRateLimiter = s.handler.rateLimiter
-	}
 	defer func() {
-		if connRateLimiter != nil {
-			connRateLimiter.CleanupConnection(connID)
+		if s.handler != nil {
+			if rl := s.handler.rateLimiter.Load(); rl != nil {
+				rl.CleanupConnection(connID)
+			}
 		}
 	}()
 
@@ -775,8 +773,13 @@ func (s *Server) handleConnectionLoop(conn net.Conn, procHandler *NFSProcedureHa
 				}
 			}
 
-			// Check rate limit
-			if connRateLimiter != nil && s.handler != nil && s.handler.policy.Load().EnableRateLimiting {
+			// Check rate limit. The limiter is loaded per request because
+			// UpdatePolicyOptions may replace it while the connection is open.
+			var connRateLimiter *RateLimiter
+			if s.handler != nil {
+				connRateLimiter = s.handler.rateLimiter.Load()
+			}
+			if connRateLimiter != nil && s.handler.policy.Load().EnableRateLimiting {
 				if !connRateLimiter.AllowRequest(authCtx.ClientIP, connID) {
 					reply := &RPCReply{
 						Header: call.Header,
